@@ -98,7 +98,19 @@ fn through_door<T: Target, V: Carrier>(door: Door, scene: &Scene, faces: &[Tri<u
     let vp = viewport(pt2(l, t)..pt2(r, b));
     match door {
         Door::Render => render(faces, verts, sh, (), vp, target, ctx),
-        Door::Batch => Batch::new().faces(faces).vertices(verts).uniform(()).shader(sh.clone()).viewport(vp).target(target).context(ctx).render(),
+        Door::Batch => {
+            let b = Batch::new().faces(faces).vertices(verts).uniform(()).viewport(vp);
+            if (faces.len() + l as usize + t as usize) % 2 == 0 {
+                // history: the batch has already rendered once - into a scratch colour buffer, under a scratch context and
+                // with another shader instance - before it is pointed at the real target ("a batch can be freely reused")
+                let mut scratch: Buf2<u32> = Buf2::new((scene.bw, scene.bh));
+                let sctx = Context { face_cull: None, ..Context::default() };
+                let warm = WrapShader::<V> { inner: AttrShader::new(Discard::Never), _v: std::marker::PhantomData };
+                let mut b1 = b.shader(warm).target(&mut scratch).context(&sctx);
+                b1.render();
+                b1.shader(sh.clone()).target(target).context(ctx).render()
+            } else { b.shader(sh.clone()).target(target).context(ctx).render() }
+        }
         Door::Camera => {
             // through the public builder: frame = buffer size, viewport = requested rectangle, identity view and projection
             // both builder orders occur (by parity of the viewport origin): mode() then viewport(), and viewport() then mode()
